@@ -188,6 +188,10 @@ def box(v):
         return v.t
     if isinstance(v, VConst):
         return Val.VO(z3.IntVal(const_id(v.py)))
+    if isinstance(v, VRecord) and v.cls == "cenum":
+        import zlib
+        tag = zlib.crc32(v.fields["enum"].py[2].encode()) & 0xFFFF
+        return Val.VT(mk_vsq([Val.VI(z3.IntVal(tag)), Val.VI(v.fields["value"].t)]))
     if isinstance(v, VRecord):
         if getattr(v, "src", None) is not None:
             return v.src            # the record was obtained by unboxing this very term
